@@ -222,7 +222,7 @@ def check_default_label(prog: Program, L: Ledger) -> None:
         f0 = ci.methods.get("on_atoms_changed")
         if f0 is None:
             continue
-        f = flat(prog, f0, ci)
+        f = flat(prog, f0, ci, keep=("set_labels",), public_methods=True)  # extracted public helpers (`new_atoms_label()`) are seen through
         # the label-selection construct: `label = <expr mentioning default_label>` or an if-chain testing default_label
         # that binds the label (the shape a helper with early returns takes once inlined)
         sites = []
